@@ -9,7 +9,7 @@ use std::sync::Arc;
 thread_local! {
   // This thread-local variable holds the set of services currently being resolved
   // on this specific thread. This is the key to detecting circular dependencies.
-  static RESOLVING_STACK: RefCell<HashSet<InjectionKey>> = RefCell::new(HashSet::new());
+  static RESOLVING_STACK: RefCell<HashSet<(usize, InjectionKey)>> = RefCell::new(HashSet::new());
 }
 
 /// An RAII guard to detect and prevent circular dependencies.
@@ -18,18 +18,21 @@ thread_local! {
 /// If the key is already present, it means we have a circular dependency, and it panics.
 /// When the guard is dropped, it removes the key from the stack.
 pub(crate) struct ResolutionGuard {
-  key: InjectionKey,
+  key: (usize, InjectionKey),
 }
 
 impl ResolutionGuard {
-  pub(crate) fn new(key: InjectionKey) -> Self {
+  /// `owner` identifies the container (its address): the same key in another
+  /// container is a different service, not a cycle.
+  pub(crate) fn new(owner: usize, key: InjectionKey) -> Self {
+    let key = (owner, key);
     RESOLVING_STACK.with(|stack| {
       let mut stack = stack.borrow_mut();
       // `insert` returns `false` if the value was already present.
       if !stack.insert(key.clone()) {
         panic!(
           "Circular dependency detected while resolving service: {:?}",
-          key
+          key.1
         );
       }
     });
